@@ -7,7 +7,7 @@ from .. import behave, env, sut
 from ..gen import docs, instances
 
 ID = "C02"
-BUDGET = {"quick": 320, "thorough": 6000}
+BUDGET = {"quick": 1280, "thorough": 12000}
 N_INST = {"quick": 6, "thorough": 16}
 RULE = ("documents: 1-4 component schemas (objects with primitive/formatted/enum/const/array/union/nested/ref/"
         "recursive properties, allOf children, typed/untyped/forbidden additionalProperties, nullable in 3.0 and 3.1 "
